@@ -320,6 +320,29 @@ impl ShardInfo {
     }
 }
 
+/// Verification harness: pass-through to the crate-private `*_from_range` variants.
+#[cfg(scylla_verif)]
+impl Sharder {
+    #[doc(hidden)]
+    pub fn verif_draw_source_port_for_shard_from_range(
+        &self,
+        shard: Shard,
+        port_range: &ShardAwarePortRange,
+    ) -> Option<u16> {
+        self.draw_source_port_for_shard_from_range(shard, port_range)
+    }
+
+    #[doc(hidden)]
+    pub fn verif_iter_source_ports_for_shard_from_range(
+        &self,
+        shard: Shard,
+        port_range: &ShardAwarePortRange,
+    ) -> Vec<u16> {
+        self.iter_source_ports_for_shard_from_range(shard, port_range)
+            .collect()
+    }
+}
+
 #[cfg(test)]
 mod tests {
     use crate::routing::{Shard, ShardAwarePortRange};
